@@ -126,6 +126,16 @@ type vkStr struct {
 type vkName struct {
 	Name string
 }
+type vkStrPad struct { // a string field next to padding: trailing (Kind) and internal (Flag before Seq)
+	Name string
+	Flag bool
+	Seq  int32
+	Kind uint8
+}
+type vkStrNest struct {
+	A int8
+	S vkStrPad
+}
 
 func TestVerifKeys(t *testing.T) {
 	name := "keys"
@@ -346,6 +356,23 @@ func TestVerifKeys(t *testing.T) {
 			}
 			return vkName{Name: n}
 		}, func(k vkName) string { return k.Name })
+		// string fields next to padding, under a StringKey function: the function decides, whatever the layout
+		vkeysRun(tr, "padded-struct-with-string+StringKey", r, 30, func(i, v int) vkStrPad {
+			n := "p" + strconv.Itoa(i/2)
+			if v >= 1 {
+				n = string(append([]byte(nil), n...))
+			}
+			return vkStrPad{Name: n, Flag: i%2 == 1, Seq: int32(i), Kind: uint8(i % 3)}
+		}, func(k vkStrPad) string { return k.Name + "/" + strconv.FormatBool(k.Flag) + "/" + strconv.Itoa(int(k.Seq)) + "/" + strconv.Itoa(int(k.Kind)) })
+		vkeysRun(tr, "nested-padded-struct-with-string+StringKey", r, 20, func(i, v int) vkStrNest {
+			n := strconv.Itoa(1000+i) + "x"
+			if v == 2 {
+				n = (strconv.Itoa(1000+i) + "xyz")[:5]
+			} else if v == 1 {
+				n = string(append([]byte(nil), n...))
+			}
+			return vkStrNest{A: int8(i % 5), S: vkStrPad{Name: n, Seq: int32(i)}}
+		}, func(k vkStrNest) string { return strconv.Itoa(int(k.A)) + ":" + k.S.Name + ":" + strconv.Itoa(int(k.S.Seq)) })
 		// forced hash collisions: a StringKey function that maps all keys onto three strings
 		vkeysRun(tr, "int+colliding-StringKey", r, 40, func(i, v int) int { return int(ival(i)) },
 			func(k int) string { return strconv.Itoa(((k % 3) + 3) % 3) })
